@@ -2,14 +2,18 @@
 
 Decided structurally (on libcnb_runtime, libcnb_runtime_detect, libcnb_runtime_build):
   R1 API gate      the calls into the detect/build phases are dominated by descriptor-read Ok and
-                   `api == supported constant`; the mismatch and read-error arms exit with a code
-                   outside {0, 100}
+                   `api == supported constant` (decided in libcnb_runtime or in a gate function that only
+                   returns when the check passed; `==` taken / `!=` not taken; `unwrap_or_else(handler
+                   that never returns)` is the Ok payload); the mismatch and read-error arms exit with a
+                   code outside {0, 100}
   R2 dispatch      the detect (build) phase is entered only under file_name(argv[0]) == "detect"
-                   ("build"); the fall-through arm exits with a code outside {0, 100}
+                   ("build"), helpers computing the name inlined; the fall-through arm exits with a code
+                   outside {0, 100}
   R3 arity         DetectArgs::parse succeeds only for exactly 3 arguments, BuildArgs::parse for 4;
                    the parse-error handlers diverge with a code outside {0, 100}
   R4 exit mapping  Ok(code) => exit(code); Err(e) => on_error(e) exactly once, then exit(c), c not in
-                   {0,100}. Detect returns only Ok(100) on Fail (no write possible) and Ok(0) on Pass,
+                   {0,100} — on the EXIT / on_error effects of libcnb_runtime (wherever helpers / closures put
+                   them) and the arm table of the exit value (match arms or Result combinators). Detect returns only Ok(100) on Fail (no write possible) and Ok(0) on Pass,
                    where the build plan is written iff it is Some; build returns Ok(0) only after
                    launch.toml / store.toml are written iff Some and every build / launch SBOM is
                    written to the build / launch SBOM path of its own format
@@ -26,11 +30,14 @@ from .lib.guards import conditions, conditions_gated
 from .lib.paths import strip
 from .lib.value import vstr, walk
 from . import layer_env_common as L
+from . import C05_helpers as H
 
 SBOM_PATH = "libcnb::sbom::cnb_sbom_path"
 RT = 'libcnb::runtime::libcnb_runtime'
 RD = 'libcnb::runtime::libcnb_runtime_detect'
 RB = 'libcnb::runtime::libcnb_runtime_build'
+READ_DESC = 'libcnb::runtime::read_buildpack_descriptor'
+ON_ERROR = 'libcnb::buildpack::Buildpack::on_error'
 MANDATORY = ['CNB_BUILDPACK_DIR', 'CNB_TARGET_OS', 'CNB_TARGET_ARCH', 'CNB_TARGET_DISTRO_NAME', 'CNB_TARGET_DISTRO_VERSION']
 
 
@@ -81,32 +88,43 @@ def run(ctx, rep):
             rep.unproven('R2', 'dispatch/' + phase, w(rt), '%d call sites of the %s phase in libcnb_runtime' % (len(cs), phase))
             continue
         c = cs[0]
+        # decisions that hold at the phase call: those of libcnb_runtime itself plus what dominating gate functions
+        # (`exit_unless_..()`) guarantee when they return.  Equalities are read in normal form: `a == b` taken or
+        # `a != b` not taken, either operand order, private helpers inlined, `x.unwrap_or_else(<handler that never
+        # returns>)` == the Ok payload of x.
         conds = conditions_gated(prog, rt, c.bb, sl)
-        desc_ok = any(cd.kind == 'variant' and cd.outcome == frozenset({'Ok'}) and strip(cd.subject)[0] == 'call'
-                      and strip(cd.subject)[1] == 'libcnb::runtime::read_buildpack_descriptor' for cd in conds)
+        is_read = lambda x: x[0] == 'call' and x[1] == READ_DESC
+        desc_ok = any(cd.kind == 'variant' and cd.outcome == frozenset({'Ok'}) and is_read(strip(cd.subject)) for cd in conds)
         api_ok = False
         for cd in conds:
-            v = cd.value
-            if cd.kind == 'bool' and v[0] == 'call' and v[1] in ('std::cmp::PartialEq::ne', 'std::cmp::PartialEq::eq'):
-                want = (v[1].endswith('::ne') and cd.outcome is False) or (v[1].endswith('::eq') and cd.outcome is True)
-                a, b = strip(v[2][0]), strip(v[2][1])
-                lhs = a[0] == 'field' and a[2] == 'api' and any(x[0] == 'call' and x[1] == 'libcnb::runtime::read_buildpack_descriptor' for x in walk(a))
-                rhs = supported is not None and b == strip(supported)
-                if want and lhs and rhs:
-                    api_ok = True
+            for x, y in H.eq_views(cd):
+                for a0, b0 in ((x, y), (y, x)):
+                    a, b = strip(H.norm(prog, sl, a0, keep=(READ_DESC,))), strip(b0)
+                    lhs = a[0] == 'field' and a[2] == 'api' and any(is_read(z) for z in walk(a))
+                    rhs = supported is not None and b == strip(supported)
+                    if lhs and rhs:
+                        api_ok = True
+                        # the descriptor was read successfully: a decision on its Ok variant, or its payload taken by
+                        # unwrap_or_else with a handler that never returns (whose exit codes are checked under R4)
+                        for r, h in H.diverging_unwraps(prog, sl, a0, keep=(READ_DESC,)):
+                            if is_read(strip(r)):
+                                desc_ok = True
+                                rep.analysed(h)
         rep.check(desc_ok and api_ok, 'R1', 'gate/' + phase, c.where(), '%s phase entered only with descriptor Ok and api == supported' % phase,
                   'the %s phase can be reached without the API check (descriptor_ok=%s api_equal=%s)' % (phase, desc_ok, api_ok))
         name_ok = False
         for cd in conds:
-            v = cd.value
-            if cd.kind == 'bool' and cd.outcome is True and v[0] == 'call' and 'PartialEq' in v[1] and v[1].endswith('::eq'):
-                lit = strip(v[2][1])
-                src = v[2][0]
-                from_argv = any(x[0] == 'call' and x[1] == 'std::env::args' for x in walk(src)) and \
-                    any(x[0] in ('fnitem', 'call') and x[1] == 'std::path::Path::file_name' for x in walk(src)) and \
-                    any(x[0] == 'call' and x[1] == 'core::slice::<impl [T]>::first' for x in walk(src))
-                if lit == ('const', phase) and from_argv:
-                    name_ok = True
+            for x, y in H.eq_views(cd):
+                for a0, b0 in ((x, y), (y, x)):
+                    lit = strip(b0)
+                    if lit != ('const', phase):
+                        continue
+                    src = H.norm(prog, sl, a0)
+                    from_argv = any(z[0] == 'call' and z[1] == 'std::env::args' for z in walk(src)) and \
+                        any(z[0] in ('fnitem', 'call') and z[1] == 'std::path::Path::file_name' for z in walk(src)) and \
+                        any(z[0] == 'call' and z[1] == 'core::slice::<impl [T]>::first' for z in walk(src))
+                    if from_argv:
+                        name_ok = True
         rep.check(name_ok, 'R2', 'dispatch/' + phase, c.where(), 'entered only when file_name(argv[0]) == "%s"' % phase,
                   'the %s phase is not guarded by the executable name "%s"' % (phase, phase))
         # argument value: parse(args).unwrap_or_else(diverging closure)
@@ -153,55 +171,92 @@ def run(ctx, rep):
             good = good and bool(eq)
         rep.check(good, 'R3', 'arity/' + phase, w(pf), '%sArgs::parse succeeds only for exactly %d arguments' % (phase, n),
                   '%sArgs::parse can succeed for an argument count other than %d' % (phase, n))
-    # Every exit in libcnb_runtime either carries a constant error code or forwards the phase result.  The exit
-    # value is looked at per reaching definition (arm table), so `match r {Ok(c) => exit(c), Err(e) => {on_error(e);
-    # exit(1)}}` and `let code = match r {Ok(c) => c, Err(e) => {on_error(e); 1}}; exit(code)` are the same to the rule.
+    # Every exit the runtime can perform outside the phases either carries a constant error code or forwards the phase
+    # result.  Exits are taken from the interprocedural MAY effects of libcnb_runtime (so an exit moved into a private
+    # gate function or into a handler closure is the same exit), and the exit value is decomposed into an arm table:
+    # `match r {Ok(c) => exit(c), Err(e) => {on_error(e); exit(1)}}`, `let code = match r {Ok(c) => c, Err(e) =>
+    # {on_error(e); 1}}; exit(code)` and `exit(r.unwrap_or_else(|e| {on_error(e); 1}))` are the same rows to the rule.
     from .lib.tables import arm_defs, phi_local_of
-    exits = exit_effects(prog, sl, rt)
+    from .lib.effects import guards_of
     is_phase = lambda y: strip(y)[0] == 'call' and strip(y)[1] in (RD, RB)
-    rows = []          # (exit call, kind 'const'|'result'|'other', value, conds at the defining site)
-    for c, v in exits:
-        rep.check(c.target is None, 'R4', 'runtime/exit-diverges/%s' % (v[1] if v[0] == 'const' else 'result'), c.where(), 'exit does not return', 'exit call has a successor')
-        loc = phi_local_of(rt, c.args[0])
-        defs = arm_defs(rt, loc, sl) if loc is not None else [(c.bb, v, conditions(rt, c.bb, sl))]
-        for bi, dv, conds in defs:
-            conds = conds + [cd for cd in conditions(rt, c.bb, sl) if cd not in conds]
-            for a in alts(strip(dv)):
-                a = strip(a) if a[0] != 'unwrap' else a
-                if a[0] == 'const':
-                    rows.append((c, 'const', a, conds))
-                elif a[0] == 'unwrap' and all(is_phase(y) for y in alts(a[1])):
-                    rows.append((c, 'result', a, conds))
-                else:
-                    rows.append((c, 'other', a, conds))
-    for c, kind, a, conds in rows:
+    is_phase_result = lambda r: r[0] in ('call', 'phi') and all(y[0] == 'call' and y[1] in (RD, RB) for y in alts(r))
+    mentions_phase = lambda v: v is not None and any(x[0] == 'call' and x[1] in (RD, RB) for x in walk(v))
+    err_phase = lambda cd: cd.kind == 'variant' and cd.outcome == frozenset({'Err'}) and mentions_phase(cd.subject)
+    # the phases are opaque here (their own effects are the subject of the detect / build tables below)
+    E_rt = Effects(prog, sl, vocab={RD: ('PHASE', None), RB: ('PHASE', None)})
+    may_rt = E_rt.expand(rt, 'may')
+    rows = []          # (exit call, kind 'const'|'result'|'other', value, conds at the defining site, handler closure | None)
+    seen_exit = set()
+    for xe in may_rt:
+        if xe.kind != 'EXIT' or xe.call is None or not xe.call.is_('std::process::exit'):
+            continue
+        c = xe.call
+        v = strip(xe.path)
+        if id(c) not in seen_exit:
+            rep.check(c.target is None, 'R4', 'runtime/exit-diverges/%s' % (v[1] if v[0] == 'const' else 'result'), c.where(), 'exit does not return', 'exit call has a successor')
+        seen_exit.add(id(c))
+        if c.fn.path == rt.path:
+            loc = phi_local_of(rt, c.args[0])
+            defs = arm_defs(rt, loc, sl) if loc is not None else [(c.bb, v, conditions(rt, c.bb, sl))]
+            for bi, dv, conds in defs:
+                conds = conds + [cd for cd in conditions(rt, c.bb, sl) if cd not in conds]
+                for kind, a, cds, via in H.code_rows(prog, sl, rt, dv, conds, is_phase_result):
+                    rows.append((c, kind, a, cds, via))
+        else:
+            # an exit inside a private helper / closure: its code in libcnb_runtime's terms, under the decisions of
+            # every level of the call chain and those the running combinator implies
+            rep.analysed(c.fn)
+            conds = [cd for cd, _, _ in guards_of(E_rt, xe)]
+            conds += [H.SynthCond(c.fn, x[1], 'Err') for x in xe.implied if x[0] == 'unwrap_err']
+            for kind, a, cds, via in H.code_rows(prog, sl, c.fn, xe.path, conds, is_phase_result):
+                rows.append((c, kind, a, cds, via))
+    rep.check(bool(rows), 'R4', 'runtime/exits', w(rt), 'libcnb_runtime ends in exit calls', 'no exit call found among the effects of libcnb_runtime')
+    for c, kind, a, conds, via in rows:
         if kind == 'const':
             rep.check(bad_code(a), 'R4', 'runtime/exit-const/%s' % a[1], c.where(), 'error exit code %s' % a[1], 'constant exit code %s is 0 or 100 on an error arm' % a[1])
         elif kind == 'other':
             rep.unproven('R4', 'runtime/exit-other', c.where(), 'exit code of unknown origin: %s' % vstr(a)[:100])
     res_rows = [r for r in rows if r[1] == 'result']
     rep.check(len({id(r[0]) for r in res_rows}) == 1, 'R4', 'runtime/exit-result/count', w(rt), 'one exit(code) forwarding the phase result', '%d exits forward a phase result' % len({id(r[0]) for r in res_rows}))
-    for c, kind, a, conds in res_rows[:1]:
+    for c, kind, a, conds, via in res_rows[:1]:
         okc = any(cd.kind == 'variant' and cd.outcome == frozenset({'Ok'}) and cd.enum == 'std::result::Result' and
                   any(x[0] == 'call' and x[1] in (RD, RB) for x in walk(cd.subject)) for cd in conds)
         rep.check(okc, 'R4', 'runtime/exit-result', c.where(), 'Ok(code) => exit(code)', 'the phase result is forwarded as exit code outside the Ok arm')
-    oe = [c for c in rt.calls if c.decl == 'libcnb::buildpack::Buildpack::on_error']
-    if len(oe) != 1:
+    # on_error: one reachable call (an effect of libcnb_runtime, wherever it was moved to), with the phase error, only on
+    # Err, followed by an error exit that cannot be reached from the Err side without it
+    oe = [e for e in may_rt if e.kind == 'CALLBACK' and e.call is not None and e.call.decl == ON_ERROR]
+    oe_sites = [x for x in prog.callers().get(ON_ERROR, []) if x.decl == ON_ERROR and x.fn.crate == 'libcnb']
+    if len(oe) != 1 or len(oe_sites) != 1:
+        # one reachable call from libcnb_runtime, and no other call site anywhere in the crate (e.g. inside a phase)
+        oe = oe if len(oe) != 1 else oe_sites
         rep.violated('R4', 'runtime/on_error', w(rt), 'on_error is called from %d sites (expected exactly one)' % len(oe))
     else:
-        c = oe[0]
-        ev = strip(sl.operand(rt, c.args[1]))
-        ok = all(a[0] == 'unwrap_err' and all(is_phase(y) for y in alts(a[1])) for a in alts(ev)) and not rt.in_loop(c.bb)
-        conds = conditions(rt, c.bb, sl)
-        okc = any(cd.kind == 'variant' and cd.outcome == frozenset({'Err'}) and any(x[0] == 'call' and x[1] in (RD, RB) for x in walk(cd.subject)) for cd in conds)
+        e = oe[0]
+        c = e.call
+        of = c.fn
+        levels = list(e.chain) + [c]
+        e_args, e_implied = H.err_closure_payload(E_rt, e)
+        ev = strip(e_args[1]) if len(e_args) > 1 else ('unknown',)
+        ok = all(a[0] == 'unwrap_err' and all(is_phase(y) for y in alts(a[1])) for a in alts(ev)) and not any(l.fn.in_loop(l.bb) for l in levels)
+        # "only on Err": a decision on the phase result around the call (at any level of the chain), or the call sits in
+        # the closure a Result combinator runs with the Err payload of the phase result
+        implied_err = any(x[0] == 'unwrap_err' and is_phase_result(x[1]) for x in e_implied)
+        okc = any(err_phase(cd) or (cd.kind == 'variant' and cd.outcome == frozenset({'Err'}) and mentions_phase(subj)) for cd, _, subj in guards_of(E_rt, e)) or implied_err
         # after on_error the process exits with an error code: every exit reachable from on_error gets, on the Err arm,
         # a constant error code, and on_error cannot be bypassed on the way from the Err arm to that exit
-        reach = rt.reachable(c.bb)
-        after = [r for r in rows if r[0].bb in reach]
-        err_rows = [r for r in after if any(cd.kind == 'variant' and cd.outcome == frozenset({'Err'}) and any(x[0] == 'call' and x[1] in (RD, RB) for x in walk(cd.subject)) for cd in r[3])]
+        reach = of.reachable(c.bb)
+        direct = [r for r in rows if r[0].fn.path == of.path and r[0].bb in reach and any(err_phase(cd) for cd in r[3])]
+        handled = [r for r in rows if r[4] is not None and any(l.fn.path == r[4].path for l in levels) and any(err_phase(cd) for cd in r[3])]
+        err_rows = direct + handled
         good_after = bool(err_rows) and all(r[1] == 'const' and bad_code(r[2]) for r in err_rows)
+        conds = conditions(of, c.bb, sl)
         err_arm = [cd.target for cd in conds if cd.kind == 'variant' and cd.outcome == frozenset({'Err'})]
-        not_bypassed = bool(err_arm) and all(must_pass(rt, err_arm[-1], r[0].bb, c.bb) for r in err_rows)
+        if not err_arm and implied_err and of.kind == 'Closure':
+            err_arm = [0]        # the closure body *is* the Err arm
+        not_bypassed = bool(err_rows) and (not direct or (bool(err_arm) and all(must_pass(of, err_arm[-1], r[0].bb, c.bb) for r in direct)))
+        for r in handled:
+            # the handler closure returns the code: on_error is among the effects on every way to each of its returns
+            not_bypassed = not_bypassed and any(m.call is c for m in E_rt.expand(r[4], 'must'))
         rep.check(ok and okc and good_after and not_bypassed, 'R4', 'runtime/on_error', c.where(),
                   'Err(e) => on_error(e) once, then exit with an error code', 'error path does not call on_error(e) exactly once followed by a non-zero, non-100 exit')
     # ---- R5 --------------------------------------------------------------------------------------------
